@@ -53,8 +53,9 @@ func checkC02(w *World, r *Report) {
 	}
 	r.Rule("C02.fromscratch", "P6", "the minted amount = TruncateInt(AmountToMint(periodStart, blockTime) + RemainderFromPreviousMinter) - AmountMinted; it is independent of the previous block time (LastMintBlockTime is used only by the same-block guard); only truncation occurs on the slice, never rounding up", 5)
 	r.Rule("C02.nonneg", "P5", "BANK.mint and the update of AmountMinted are dominated by the false edge of amount.IsNegative()", 2)
-	r.Rule("C02.boundaries", "P7", "ordering tables: Mint before StartTime has no effect; hand-over: no EndTime or now before it => stay, now after it => history + successor; LinearMinting: now before start => zero, now after end => the full Amount; ExponentialStepMinting: now after end => the computation uses end", 12)
+	r.Rule("C02.boundaries", "P7", "ordering tables: Mint before StartTime has no effect; hand-over: no EndTime or now before it => stay, now after it => history + successor; LinearMinting: now before start => zero, now after end => the full Amount; ExponentialStepMinting: now after end => the computation uses end and no returned value depends on the block time (origins restricted to live edges)", 15)
 	r.Rule("C02.carry", "P6", "successor state: SequenceId = old+1, AmountMinted = 0, RemainderFromPreviousMinter = fractional part of this period's total (not a constant); the history entry is the old state after its own update; the amount returned upward = minted(successor) + amount", 5)
+	r.Rule("C02.units", "P9", "units of measure over SSA: in the two schedule formulas every sum, difference, comparison and merge combines values of the same time scale (ns / ms / s are distinct units), conversions to Duration and Time.Add receive ns, and the amount returned is a pure number (amount x time / time in one scale) - so the result cannot depend on the scale or on sub-unit truncation of one operand only", 2)
 	r.Rule("C02.start", "P6", "period start = params.StartTime when there is no predecessor, the predecessor's EndTime otherwise; current and predecessor are the two results of one call on (params.Minters, state); emission and inflation obtain them from the same function", 4)
 	if !ro.checkFloors(r) {
 		return
@@ -335,6 +336,25 @@ func checkC02(w *World, r *Report) {
 					}
 				}
 				r.Check(ok, "C02.boundaries", "ExponentialStepMinting: "+sc.name+" => elapsed time measured up to "+sc.want, w.Pos(exp.Pos()), "live value of the effective time", "elapsed time is not capped at the period end (or capped too early)")
+				// closed-world form: whatever is returned in this ordering depends on the block time exactly when it should
+				lt := w.Tracer()
+				lt.Live, lt.LiveFn = live, exp
+				usesNow := false
+				nret := 0
+				for _, ret := range Returns(exp) {
+					if !live.Blocks[ret.Block()] {
+						continue
+					}
+					nret++
+					if lt.Origins(retVals(ret)[0]).Visited(nowP) {
+						usesNow = true
+					}
+				}
+				if sc.want == "end" {
+					r.Check(nret > 0 && !usesNow, "C02.boundaries", "ExponentialStepMinting: "+sc.name+" => nothing returned depends on the block time", w.Pos(exp.Pos()), "no live return has the block time in its backward slice", "past the period end some returned amount still grows with the block time: the finished period and its successor both emit for the time after the end")
+				} else {
+					r.Check(nret > 0 && usesNow, "C02.boundaries", "ExponentialStepMinting: "+sc.name+" => the amount follows the block time", w.Pos(exp.Pos()), "the block time is in the backward slice of the result", "inside the period the amount does not depend on the block time")
+				}
 			}
 		}
 	}
@@ -402,6 +422,15 @@ func checkC02(w *World, r *Report) {
 	}
 	// ---------- C02.start ----------
 	periodStartRule(w, r, "C02.start", []*ssa.Function{mint, infl})
+	// ---------- C02.units ----------
+	for _, a := range []string{"x/cfeminter/types.LinearMinting.AmountToMint", "x/cfeminter/types.ExponentialStepMinting.AmountToMint"} {
+		fn := w.Func(a)
+		if fn == nil {
+			r.Unk("infra.anchor", a, "", "anchor not found")
+			continue
+		}
+		unitsRule(w, r, "C02.units", fn, "amount due is a pure number of coins")
+	}
 }
 
 // periodStartRule: the schedule is evaluated for the current period from the start that its predecessor's end (or the configured start time) gives.
